@@ -210,10 +210,10 @@ def describe_sig(evs, ev, inv, bad):
     sg = next((e for e in evs if e["ev"] == "Signal"), {})
     ex = next((e for e in evs if e["ev"] == "Exit"), {})
     return ("signal sig=%s kind=%s pipe=%s inv=%s bad=%s" % (st.get("sig"), st.get("kind"), st.get("pipe"), inv, bad),
-            "pandora (%s, %s rps, %s instances, %s sink, GOMAXPROCS=%s) stopped with SIG%s %s ms into the run: %s reports had returned "
+            "pandora (%s, %s rps, %s instances in %s pool(s), %s sink, GOMAXPROCS=%s) stopped with SIG%s %s ms into the run: %s reports had returned "
             "before the signal, %s begun at exit; result has %s lines (+%s counted drops), last line complete=%s, "
             "aggregator returned before exit=%s, exit status %s: %s" % (
-                st.get("kind"), st.get("rps"), st.get("inst"), "slow pipe" if st.get("pipe") else "file",
+                st.get("kind"), st.get("rps"), st.get("inst"), st.get("pools"), "slow pipe" if st.get("pipe") else "file",
                 st.get("gomaxprocs") or "default",
                 st.get("sig"), st.get("after_ms"), sg.get("returned_before"), ex.get("entered"), ex.get("lines"),
                 ex.get("dropped"), ex.get("last_complete"), ex.get("agg_returned"), ex.get("status"), bad))
@@ -236,7 +236,7 @@ def run(tier, v):
         vdrive, vpandora = fb.result()
         # process level runs concurrently with the design-level TLC runs (it is mostly waiting)
         sig_path = os.path.join(d, "aggsig.ndjson")
-        nsig = 300 if thorough else 16
+        nsig = 500 if thorough else 16
         fs = ex.submit(vlib.run_driver, vdrive, ["aggsig", "-vpandora", vpandora, "-out", sig_path, "-runs", str(nsig),
                                                   "-par", "6" if thorough else "4"], 3000)
         states, trans, per = fd.result()
@@ -244,7 +244,7 @@ def run(tier, v):
     ncases, cstates, ctrans, csamples = format_cases(v, vdrive, d)
     # M1 in-process
     agg_path = os.path.join(d, "agg.ndjson")
-    nruns, neng, ncan = (5000, 300, 700) if thorough else (300, 24, 40)
+    nruns, neng, ncan = (5000, 300, 1500) if thorough else (300, 24, 40)
     vlib.run_driver(vdrive, ["agg", "-out", agg_path, "-runs", str(nruns), "-engine", str(neng), "-cancel", str(ncan)],
                     timeout=3000)
     rows = vlib.read_ndjson(agg_path)
@@ -263,7 +263,7 @@ def run(tier, v):
     samples = []
     for e in exits[:3]:
         s_ = starts[e["run"]]
-        samples.append({"process": {k: s_[k] for k in ("kind", "sig", "after_ms", "rps", "inst", "pipe", "gomaxprocs")},
+        samples.append({"process": {k: s_[k] for k in ("kind", "sig", "after_ms", "rps", "inst", "pipe", "gomaxprocs", "pools")},
                         "returned_before_signal": sigs.get(e["run"], {}).get("returned_before"),
                         "exit": {k: e[k] for k in ("status", "entered", "returned", "lines", "dropped", "last_complete", "agg_returned", "wait_ms")}})
     run1 = [r for r in rows if r["run"] == 1]
